@@ -123,6 +123,8 @@ Definition NClist (f : nat) : Prop := forall acc q endk k, wfq q -> NC k -> is_c
 Definition NCarray (f : nat) : Prop := forall acc q arr k, wfq q -> NC k -> is_crash (parray b c f acc q arr k) = false.
 Definition NCinfix (f : nat) : Prop := forall acc q arr k, wfq q -> NC k -> is_crash (pinfix b c f acc q arr k) = false.
 
+Definition NCprefix (f : nat) : Prop := forall acc q name k, wfq q -> NC k -> is_crash (pprefix b c f acc q name k) = false.
+
 Lemma hd_step : forall q, q_toks q <> [] -> wfq q ->
   exists a, wstep WFree (tok_at q 0) = Some a /\ wf_from a (q_toks (q_tail q)).
 Proof.
@@ -130,9 +132,9 @@ Proof.
   cbn [nth wrun tl] in *. destruct (wstep WFree t) as [a|] eqn:E; [exists a; split; [reflexivity|exact H]|congruence].
 Qed.
 
-Lemma main_nc : forall f, NCexpr f /\ NClist f /\ NCarray f /\ NCinfix f.
+Lemma main_nc : forall f, NCexpr f /\ NClist f /\ NCarray f /\ NCinfix f /\ NCprefix f.
 Proof.
-  induction f as [|f [IHe [IHl [IHa IHi]]]].
+  induction f as [|f [IHe [IHl [IHa [IHi IHp]]]]].
   - repeat split; red; intros; reflexivity.
   - assert (NCexpr (S f)) as HE.
     { red. intros acc top q k Hw Hk. simpl pexpr.
@@ -143,7 +145,7 @@ Proof.
       unfold wstep in Ha. unfold kind_is in Ha.
       destruct (t_kind (tok_at q 0)) eqn:K; simpl in Ha;
         try reflexivity; try (apply Hk; exact Hw1);
-        try (apply IHe; [exact Hw1|apply Hsug]).
+        try (apply IHp; [exact Hw1|exact Hk]).
       + apply IHl; assumption.
       + apply IHa; assumption.
       + (* TLCurly *)
@@ -199,6 +201,9 @@ Proof.
       assert (q_toks q <> []) as Hne by (eapply len_ne'; exact Hlen).
       destruct (kind_is (tok_at q 0) TRCurly); [apply Hk; apply wfq_tail'; assumption|].
       apply IHe; [exact Hw|]. red. intros e q2 H2. apply IHi; assumption. }
+    assert (NCprefix (S f)) as HP.
+    { red. intros acc q name k Hw Hk. simpl pprefix. apply IHe; [exact Hw|].
+      red. intros e q2 H2. destruct (is_comment e); [apply IHp; assumption|apply Hk; exact H2]. }
     repeat split; assumption.
 Qed.
 
